@@ -24,7 +24,7 @@ ASSUMPTIONS = [
     "design and are outside the equivalence; @argfile expansion and reading passwords/arguments from standard input are not exercised",
 ]
 
-POOL = ["A.pdf", "B.pdf", "C.pdf", "E.pdf", "E256.pdf", "F.pdf", "att.txt", "att2.txt", "pwfile.txt", "AJ.json", "O.pdf"]
+POOL = ["A.pdf", "B.pdf", "C.pdf", "E.pdf", "E256.pdf", "F.pdf", "att.txt", "att2.txt", "pwfile.txt", "AJ.json", "O.pdf", "W.pdf"]
 STAMP = "D:20240102030405Z"
 
 # ------------------------------------------------------------------------------------------------ tables
@@ -239,6 +239,10 @@ def make_pool(wd):
     q("B.pdf", "--static-id", "--static-aes-iv", "--encrypt", "pw", "opw", "256", "--print=low", "--", "E256.pdf")
     q("A.pdf", "--static-id", "--add-attachment", "att.txt", "--key=att1", "--creationdate=" + STAMP, "--moddate=" + STAMP, "--", "F.pdf")
     q("B.pdf", "--json-output", "AJ.json")
+    # a damaged file (wrong startxref): read with warnings, exit status 3
+    data = open(os.path.join(pool, "B.pdf"), "rb").read()
+    data = re.sub(rb"startxref\n(\d+)", lambda m: b"startxref\n%d" % (int(m.group(1)) + 7), data)
+    open(os.path.join(pool, "W.pdf"), "wb").write(data)
     return pool
 
 
@@ -307,7 +311,7 @@ class Runner:
         self.chk, self.T, self.wd, self.pool, self.drv = chk, T, wd, pool, drv
         self.n = 0
 
-    def prepare(self, job, tag, argv_order=None, mix_cut=None, style=0):
+    def prepare(self, job, tag, argv_order=None, mix_cut=None, style=0, json_job=None):
         """-> list of (rendering name, kind, dir, payload)"""
         T = self.T
         self.n += 1
@@ -317,7 +321,8 @@ class Runner:
         d = new_rundir(self.wd, self.pool, base + "/cli-argv")
         rs.append(("cli-argv", "cli", d, argv))
         d = new_rundir(self.wd, self.pool, base + "/cli-json")
-        open(os.path.join(d, "job.json"), "w").write(json.dumps(job))
+        jj = json_job if json_job is not None else job
+        open(os.path.join(d, "job.json"), "w").write(json.dumps(jj))
         rs.append(("cli-json", "cli", d, ["--job-json-file=job.json"]))
         # argv + partial JSON: a contiguous cut of the key order goes to the file, so that the overall order of Config calls is kept
         keys = argv_order if argv_order is not None else sorted(job)
@@ -327,11 +332,11 @@ class Runner:
         first, second = okeys[:cut], okeys[cut:]
         d = new_rundir(self.wd, self.pool, base + "/cli-mix")
         if self.n % 2 == 0:
-            part = {k: job[k] for k in first}
+            part = {k: jj[k] for k in first}
             rest = {k: job[k] for k in second + pos}
             margv = ["--job-json-file=part.json"] + render_argv(T, rest, [k for k in keys if k in rest], style)
         else:
-            part = {k: job[k] for k in second}
+            part = {k: jj[k] for k in second}
             rest = {k: job[k] for k in first + pos}
             margv = render_argv(T, rest, [k for k in keys if k in rest], style) + ["--job-json-file=part.json"]
         open(os.path.join(d, "part.json"), "w").write(json.dumps(part))
@@ -339,7 +344,7 @@ class Runner:
         d = new_rundir(self.wd, self.pool, base + "/capi-argv")
         rs.append(("capi-argv", "capi-argv", d, argv))
         d = new_rundir(self.wd, self.pool, base + "/capi-json")
-        rs.append(("capi-json", "capi-json", d, json.dumps(job)))
+        rs.append(("capi-json", "capi-json", d, json.dumps(jj)))
         return rs
 
     def run_all(self, prepared):
@@ -584,6 +589,12 @@ STRUCT_JOBS = [
     {"splitPages": "", "outputFile": "-"},
     {"progress": "", "verbose": ""},
     {"warningExit0": "", "inputFile": "E.pdf"},
+    {"inputFile": "W.pdf"},
+    {"inputFile": "W.pdf", "warningExit0": ""},
+    {"inputFile": "W.pdf", "noWarn": ""},
+    {"inputFile": "W.pdf", "check": "", "outputFile": None},
+    {"inputFile": "W.pdf", "suppressRecovery": ""},
+    {"pages": [{"file": "W.pdf", "range": "1"}]},
 ]
 
 
@@ -598,7 +609,7 @@ def struct_job(s):
 
 
 def random_job(T, rng):
-    j = base_job(rng.choice(["A.pdf", "A.pdf", "B.pdf", "C.pdf", "F.pdf"]))
+    j = base_job(rng.choice(["A.pdf", "A.pdf", "B.pdf", "C.pdf", "F.pdf", "W.pdf"]))
     simple = [k for k in T.main if k not in T.structured and k not in ("jobJsonFile", "passwordFile")]
     for _ in range(rng.randint(2, 5)):
         k = rng.choice(simple)
@@ -625,7 +636,7 @@ def random_job(T, rng):
 # ------------------------------------------------------------------------------------------------ parts
 
 def report(chk, part, job, res, why, signature=""):
-    rep = {"kind": "property-fails-on-implementation", "part": part, "why": why, "job_json": job,
+    rep = {"kind": "property-fails-on-implementation", "part": part, "why": why, "job_json": job, "job_json_as_given": res["capi-json"]["payload"],
            "renderings": {n: {"payload": r["payload"], "rc": r["rc"], "stderr": r["stderr"][-600:], "stdout": r["stdout"], "files": r["files"]}
                           for n, r in res.items()}}
     chk.violation(rep, signature=signature)
@@ -667,8 +678,22 @@ def part_e2e(chk, T, runner, pending=()):
     nrand = 150 if chk.tier == "quick" else 6000
     for _ in range(nrand):
         jobs.append(("r", random_job(T, rng)))
+    # 5. job JSON with a single item where the schema has an array (JSON::checkSchema accepts it): same job, other JSON shape
+    singles, per_key = {}, {}
+    for tag, j in list(jobs):
+        for k, v in j.items():
+            if isinstance(v, list) and len(v) == 1 and (k, json.dumps(v)) not in singles and per_key.get(k, 0) < (4 if chk.tier == "quick" else 40):
+                singles[(k, json.dumps(v))] = j
+                per_key[k] = per_key.get(k, 0) + 1
+    njobs_plain = len(jobs)
+    alt = {}
+    for (k, _), j in singles.items():
+        jj = dict(j)
+        jj[k] = j[k][0]
+        alt[len(jobs)] = (k, jj)
+        jobs.append(("a", j))
     # inspection options refuse an output file: exercise them without one as well
-    prepared = [(j, runner.prepare(j, tag, style=i)) for i, (tag, j) in enumerate(jobs)]
+    prepared = [(j, runner.prepare(j, tag, style=i, json_job=alt[i][1] if i in alt else None)) for i, (tag, j) in enumerate(jobs)]
     results = runner.run_all(prepared)
     extra = []
     for (tag, j), res in zip(jobs, results):
@@ -681,6 +706,8 @@ def part_e2e(chk, T, runner, pending=()):
     alljobs = jobs + extra
     allres = results + results2
     nontriv, dist = set(), {"ok": 0, "warn": 0, "usage": 0, "error": 0}
+    nontriv_idx = []
+    alt_key = {id(results[i]): alt[i][0] for i in alt}
     for (tag, j), res in zip(alljobs, allres):
         why = compare(res)
         ref = res["cli-argv"]
@@ -689,7 +716,11 @@ def part_e2e(chk, T, runner, pending=()):
         if ref["rc"] in (0, 3) and (ref["files"] or ref["stdout"][-2:] != ":0"):
             nontriv.add(json.dumps(j, sort_keys=True))
         if why:
-            report(chk, "e2e", j, res, why, signature=enc40_signature(j, res))
+            idx = len(nontriv_idx)
+            sig = enc40_signature(j, res)
+            if tag == "a" and not sig:
+                sig = "C19:json-single-item:" + alt_key.get(id(res), "?")
+            report(chk, "e2e", j, res, why, signature=sig)
     chk.count("e2e", 5 * len(alljobs), nontriv,
               samples=[{"job": alljobs[i][1], "argv": allres[i]["cli-argv"]["payload"], "rc": allres[i]["cli-argv"]["rc"]} for i in (3, len(jobs) // 2, len(jobs) - 1)])
     chk.cov["parts"]["e2e"]["distribution"] = dist
@@ -706,9 +737,22 @@ def cfg_lines_for(T, job, order):
     return ("cfgf_argv " if forked else "cfg_argv ") + " ".join(hexs(a) if a != "" else "-" for a in argv)
 
 
+def NOW_PREFIXES():
+    import time
+    t = time.time()
+    return {time.strftime("D:%Y%m%d", f(t + dt)) for f in (time.gmtime, time.localtime) for dt in (-86400, 0, 86400)}
+
+
 def parse_dump(o):
     if o.startswith("ok "):
-        return ("ok", dict(x.split("=", 1) for x in o[3:].split(";") if x))
+        d = dict(x.split("=", 1) for x in o[3:].split(";") if x)
+        # AttConfig::endAddAttachment defaults the dates to a per-process static "now": not comparable between processes
+        for k in d:
+            if k.endswith((".creationdate", ".moddate")) and d[k] != "-":
+                v = bytes.fromhex(d[k]).decode("latin-1")
+                if re.match(r"^D:20\d{12}", v) and v[:10] in NOW_PREFIXES():
+                    d[k] = "now"
+        return ("ok", d)
     if o.startswith("usage "):
         return ("usage", bytes.fromhex(o[6:]).decode("latin-1") if o[6:] != "-" else "")
     return ("error", o)
@@ -1036,6 +1080,10 @@ def part_front(chk, T, runner, jobs):
             cases.append(("argv", mutate_argv(rng, T, render_argv(T, j, order, rng.randrange(2)))))
         else:
             cases.append(("json", mutate_json(rng, T, j), rng.random() < 0.2))
+    for jv in ({"inputFile": "A.pdf", "outputFile": "out.pdf", "pages": {"file": "B.pdf"}}, {"inputFile": "A.pdf", "outputFile": "out.pdf", "setPageLabels": "1:r"},
+               {"inputFile": "A.pdf", "outputFile": "out.pdf", "overlay": {"file": "O.pdf"}, "rotate": "+90", "addAttachment": {"file": "att.txt"}},
+               {"pages": [{"file": "B.pdf"}], "inputFile": "A.pdf", "outputFile": "out.pdf"}, "x", [], {"encrypt": {"Bits": "x"}}):
+        cases.append(("json", jv, False))
     for w in (["--version"], ["--help"], ["--qdf"], ["A.pdf"], [], ["--show-crypto", "x"], ["--", "A.pdf", "--", "out.pdf"], ["-", "out.pdf"]):
         cases.append(("argv", w))
     files = ",".join(hexs(f) for f in POOL)
